@@ -9,8 +9,8 @@ import os, hashlib
 PROP = "C14O"
 AREAS = ["open", "agcv3", "archive", "collection"]
 PROFILES = ["dev", "release"]
-THEOREMS = ["open2_total_safe_refuted", "open2_release_total_safe", "open2_dev_panic_iff", "open2_total_safe_if_repaired", "open2_total_safe_partial",
-            "open2_profiles_agree", "open2_loop_is_count_loop", "open2_alloc_bounded", "open2_ok_means_listable", "open2_ok_iff",
+THEOREMS = ["open2_total_safe", "open2_profile_independent", "open2_total_safe_if_repaired", "open2_old_form_refuted",
+            "open2_old_form_panic_iff", "open2_repair_conservative", "open2_loop_is_count_loop", "open2_alloc_bounded", "open2_ok_means_listable", "open2_ok_iff",
             "open2_names_are_c03_decoder", "open2_max_off_irrelevant", "open2_requires_names",
             "prefix_rejected_open2_partial", "open2_complete_archive_ok", "open2_code_shape"]
 RULE = ("cases: pre fs from to file (every prefix length in from..to-1 of one valid archive - real ragc archives made by "
@@ -24,7 +24,7 @@ RULE = ("cases: pre fs from to file (every prefix length in from..to-1 of one va
         "larger than the data in every varint width, 5-byte varints around the u32 overflow threshold 0xEFDFBF7F/80 and with "
         "all top bits set, non-UTF-8 bytes, NUL-less strings); file fs bytes (python-built containers: raw-block zstd frames, "
         "duplicate stream names, parts outside/overlapping, empty parts, varint metadata that runs past EOF; single-byte "
-        "mutations of directories). The result token per file = the place where open stopped (13 error codes / P / O with k, "
+        "mutations of directories). The result token per file = the place where open stopped (14 error codes / P / O with k, "
         "min_match_len and the sample list) must equal the extracted model's, in both profiles (the model is told whether the "
         "binary traps on overflow and is given the zstd table). non-trivial = a pre chunk beyond 8 bytes or a file that passes "
         "Archive::open; distinct = distinct case line")
@@ -38,9 +38,10 @@ TRUSTED = ["python oracle in checks/c14o.py: every strict prefix of a real archi
            "are not modelled; only the returned Vec is logged (AZstd)",
            "'every strict prefix is refused' is an exhaustive enumeration per archive, not a theorem (depends on the data bytes); "
            "proved: which directories stage two refuses (open2_ok_iff, prefix_rejected_open2_partial, open2_requires_names)",
-           "crafted complete archives are outside C14's quantifier (prefixes of valid archives): a panic there is recorded as "
-           "observation class 'crafted-samples-stream' (evidence: observations), not as a violation; set C14O_STRICT_CRAFTED=1 "
-           "to turn it into a failing input with a replay file"]
+           "crafted complete archives are outside C14's prefix quantifier but inside open2_total_safe: since /repo 4d083e0 a PANIC on "
+           "any case (prefix, crafted stream, python container) is a failing input (class 'crafted-samples-stream' for crafted "
+           "files); a crafted stream whose 5-byte count exceeds u32 and that reaches the table must get the error value V "
+           "(not a panic, not a handle with a wrapped count) in both profiles - regression cases in corpus/c14o.cases"]
 ASSUMPTIONS = ["bytes are < 256 (file and zstd output)",
                "verbosity 0 (with verbosity > 0 open additionally clones the names for eprintln!, which panics if stderr is closed)",
                "64-bit target (`raw_size as usize` keeps the value)",
@@ -52,7 +53,7 @@ M64 = (1 << 64) - 1
 CHUNK = 256
 EXPECT = {}         # sha1 of the hex of a valid archive -> (k, [sample name bytes]) that the complete file must list
 STATS = {"archives": [], "prefixes": 0, "tokens": {}, "observations": {}, "accepted_prefixes": [], "archive_ok_prefixes": 0}
-STRICT_CRAFTED = os.environ.get("C14O_STRICT_CRAFTED") == "1"
+STRICT_CRAFTED = True     # since /repo 4d083e0 (5-byte varint: checked_add) a panic on a crafted file is a failing input
 THR = 0xEFDFBF80          # smallest 32-bit value whose sum with THR_4 = 270549120 leaves u32
 
 
@@ -458,8 +459,22 @@ def oracle(case, impl):
         ob = STATS["observations"].setdefault("crafted-samples-stream", {"dev": 0, "release": 0, "first_case": case[:400]})
         ob[prof] += 1
         if STRICT_CRAFTED:
-            return "Decompressor::open panics on a crafted complete archive (sample-name count varint overflows u32)"
+            return "Decompressor::open panics on a crafted complete archive"
+    if t[0] == "craft" and overflowing_count_reaches_table(t):
+        STATS["overflow_regression"] = STATS.get("overflow_regression", 0) + 1
+        if c != "V":
+            return (f"sample-name stream with a 5-byte count above u32: expected the error value V (Invalid 5-byte varint), "
+                    f"got {c[:40]} (regression of /repo 4d083e0: dev panic / release wrap)")
     return None
+
+
+def overflowing_count_reaches_table(t):
+    """craft case whose archive is complete and well-formed up to the sample table, and whose table starts with a 5-byte
+    count whose value + THR_4 leaves u32"""
+    f = t[2].split(".")
+    pay, par = unhx(t[4]), unhx(t[3])
+    return (f[0] == "15" and f[1] == "1" and f[2] in ("0", "4") and t[5] == "0" and len(par) >= 12 and len(pay) >= 5
+            and pay[0] >= 0xF0 and int.from_bytes(pay[1:5], "big") >= THR)
 
 
 def nontrivial(case, impl):
@@ -475,6 +490,7 @@ def extra_coverage(ctx):
             "mk_failed": STATS.get("mk_failed", 0), "answer_distribution_all_profiles": dict(sorted(STATS["tokens"].items())),
             "strict_prefixes_that_pass_Archive_open_and_are_refused_by_stage_two": STATS["archive_ok_prefixes"],
             "examples_of_those": STATS["accepted_prefixes"],
+            "overflowing_count_cases_answered_V_all_profiles": STATS.get("overflow_regression", 0),
             "observations": STATS["observations"]}
 
 
